@@ -66,6 +66,7 @@ fn c14_new_with_clones_script_l4() {
     kani::cover!(st.live == 4, "four live handles");
     kani::cover!(st.live == 0, "all handles dropped inside the script");
     arc_finish(a, &mut st);
+    std::mem::forget(st);      // (all places are None now; skips the drop-glue loop over the array)
 }
 
 #[cfg(kani)] #[kani::proof] #[kani::unwind(4)] #[kani::stub(std::hint::spin_loop, noop_spin)]
@@ -83,6 +84,7 @@ fn c14_unique_into_arc_script_l3() {
         let mut st = ArcState { h: [Some(h), None, None, None], live: 1, v };
         crate::rep!(3, { arc_step(&mut st); });
         arc_finish(a, &mut st);
+        std::mem::forget(st);
     } else {
         drop(u);
         assert!(unsafe { DROPS } == 1, "C14: dropping the unique handle destroys the value exactly once");
